@@ -111,6 +111,105 @@ theorem relaxSnode_fcols_increasing (n relax : Nat) (etree : Array Nat) (h : Pos
   have := hk.2 a hab.1
   omega
 
+
+/-! ### The fuel of the model never runs out: the recursive definitions are the C `while` loops
+
+`climb`, `nextLeaf` and `relaxLoop` take a fuel argument to be total.  The three theorems below show that with the fuel
+`relaxSnode` passes (n, n, n + 1) each loop ends because its C exit condition became false, never because the fuel was used
+up — so the model has exactly the runs of `pxgstrf_relax_snode`, and those loops terminate on every postordered etree. -/
+
+theorem climb_stops (n relax : Nat) (etree desc : Array Nat) (h : PostOrd n etree) :
+    ∀ fuel j, j < n → n ≤ fuel + j →
+      ¬ (getN etree (climb n relax etree desc fuel j) ≠ n ∧ getN desc (getN etree (climb n relax etree desc fuel j)) < relax) := by
+  intro fuel
+  induction fuel with
+  | zero => intro j hj hf; omega
+  | succ f ih =>
+    intro j hj hf
+    unfold climb
+    simp only []
+    split
+    · rename_i hc
+      have hp := h j hj
+      exact ih (getN etree j) (by omega) (by omega)
+    · rename_i hc; exact hc
+
+theorem nextLeaf_stops (n : Nat) (desc : Array Nat) :
+    ∀ fuel j, n ≤ fuel + j → ¬ (getN desc (nextLeaf n desc fuel j) ≠ 0 ∧ nextLeaf n desc fuel j < n) := by
+  intro fuel
+  induction fuel with
+  | zero => intro j hf; simp only [nextLeaf]; omega
+  | succ f ih =>
+    intro j hf
+    unfold nextLeaf
+    split
+    · exact ih (j + 1) (by omega)
+    · rename_i hc; exact hc
+
+/-- any two sufficient amounts of fuel give the same list: the outer loop ends by `j ≥ n` -/
+theorem relaxLoop_fuel_irrelevant (n relax : Nat) (etree desc : Array Nat) (h : PostOrd n etree) :
+    ∀ f1 f2 j acc, n + 1 ≤ f1 + j → n + 1 ≤ f2 + j →
+      relaxLoop n relax etree desc f1 j acc = relaxLoop n relax etree desc f2 j acc := by
+  intro f1
+  induction f1 with
+  | zero =>
+    intro f2 j acc h1 h2
+    cases f2 with
+    | zero => rfl
+    | succ f2 => simp only [relaxLoop]; rw [if_neg (by omega)]
+  | succ f1 ih =>
+    intro f2 j acc h1 h2
+    cases f2 with
+    | zero => simp only [relaxLoop]; rw [if_neg (by omega)]
+    | succ f2 =>
+      simp only [relaxLoop]
+      split
+      · rename_i hj
+        have hc := climb_ge n relax etree desc h n j hj
+        have hn := nextLeaf_ge n desc n (climb n relax etree desc n j + 1)
+        exact ih f2 _ _ (by omega) (by omega)
+      · rfl
+
+/-- `relaxSnode` with any larger fuel is the same function -/
+theorem relaxSnode_fuel_irrelevant (n relax : Nat) (etree : Array Nat) (h : PostOrd n etree) (extra : Nat) :
+    relaxLoop n relax etree (descCounts n etree) (n + 1 + extra) 0 [] = relaxSnode n relax etree := by
+  unfold relaxSnode
+  exact relaxLoop_fuel_irrelevant n relax etree _ h _ _ 0 [] (by omega) (by omega)
+
+
+/-- every entry is `(j, climb j − j + 1)` for a column j < n -/
+theorem relaxLoop_entries (n relax : Nat) (etree desc : Array Nat) :
+    ∀ fuel j acc, (∀ a ∈ acc, a.1 < n ∧ a.2 = climb n relax etree desc n a.1 - a.1 + 1) →
+      ∀ a ∈ relaxLoop n relax etree desc fuel j acc, a.1 < n ∧ a.2 = climb n relax etree desc n a.1 - a.1 + 1 := by
+  intro fuel
+  induction fuel with
+  | zero => intro j acc hq a ha; simp only [relaxLoop, List.mem_reverse] at ha; exact hq a ha
+  | succ f ih =>
+    intro j acc hq
+    unfold relaxLoop
+    split
+    · rename_i hj
+      simp only []
+      apply ih
+      intro a ha
+      rcases List.mem_cons.mp ha with ha | ha
+      · subst ha; exact ⟨hj, rfl⟩
+      · exact hq a ha
+    · intro a ha; exact hq a (List.mem_reverse.mp ha)
+
+/-- **Maximality** (the rule stated in the header of pxgstrf_relax_snode.c): the top column of every relaxed supernode is a root of
+the etree or its parent has at least `relax` descendants — the supernode was not cut short. -/
+theorem relaxSnode_top_maximal (n relax : Nat) (etree : Array Nat) (h : PostOrd n etree) (a : Nat × Nat)
+    (ha : a ∈ relaxSnode n relax etree) :
+    let top := a.1 + a.2 - 1
+    top < n ∧ ¬ (getN etree top ≠ n ∧ getN (descCounts n etree) (getN etree top) < relax) := by
+  have he := relaxLoop_entries n relax etree (descCounts n etree) (n + 1) 0 [] (by simp) a ha
+  have hc := climb_ge n relax etree (descCounts n etree) h n a.1 he.1
+  have hs := climb_stops n relax etree (descCounts n etree) h n a.1 he.1 (by omega)
+  have ht : a.1 + a.2 - 1 = climb n relax etree (descCounts n etree) n a.1 := by omega
+  simp only [ht]
+  exact ⟨hc.2, hs⟩
+
 /-- the form the driver's per-configuration evaluation discharges -/
 theorem relaxSnode_ok_of_check (c : PanelCfg) (h : postOrdB c.n c.etree = true) :
     SnodesOk c.n (relaxSnode c.n c.relax c.etree) :=
